@@ -41,7 +41,14 @@ inline std::string colHistory(carquet_reader_t *r, int rg, int col, int true_max
         if (op.kind == 0 || true_max_def == 0) { out += " vals="; for (auto &v : c.values) out += pbt::hex(v) + ","; } }
       out += "\n";
       if (n < 0) break;
-    } else if (op.kind == 2) { snprintf(b, sizeof b, "skip(%d)=%lld\n", op.k, (long long)carquet_column_skip(cr, op.k)); out += b; }
+    } else if (op.kind == 2) {
+      // the way a caller writes a cursor loop: query, advance, query again in one stretch of code (if the header's
+      // attributes let the compiler merge the two queries, the second one is stale)
+      int64_t before = carquet_column_remaining(cr); bool more0 = carquet_column_has_next(cr);
+      int64_t sk = carquet_column_skip(cr, op.k);
+      int64_t after = carquet_column_remaining(cr); bool more1 = carquet_column_has_next(cr);
+      snprintf(b, sizeof b, "skip(%d)=%lld remaining %lld->%lld has_next %d->%d\n", op.k, (long long)sk, (long long)before, (long long)after, (int)more0, (int)more1); out += b;
+    }
     else if (op.kind == 3) { snprintf(b, sizeof b, "has_next=%d\n", (int)carquet_column_has_next(cr)); out += b; }
     else if (op.kind == 4) { snprintf(b, sizeof b, "remaining=%lld\n", (long long)carquet_column_remaining(cr)); out += b; }
     else { carquet_column_reader_free(cr); cr = carquet_reader_get_column(r, rg, col, &e); out += cr ? "recreate\n" : "recreate failed\n"; if (!cr) break; }
